@@ -33,12 +33,15 @@ LinterOf(it) == CASE it \in {"unwrap", "expect", "unwrapChain2", "unwrapChainLin
                   [] it \in {"clonePlain", "cloneChain", "cloneLetUnused", "cloneLetMentioned", "cloneWhileCond"} -> "clone-abuse"
                   [] OTHER -> "blocking-async"
 
+\* "asyncfn": an `async fn` ITEM declared in the body of the function (possibly with a loop inside it); the call then
+\* stands lexically inside an async fn whatever the enclosing function is - and still in exactly one place
 InnerSeqs == {<<>>} \cup {<<a>> : a \in Inners} \cup {<<a, b>> : a \in Inners, b \in Inners}
+             \cup {<<"asyncfn">>} \cup {<<"asyncfn", l>> : l \in Loops}
 Sites == [mod : Mods, fn : Fns, inner : InnerSeqs, item : Items]
 
 ToSet(s) == {s[i] : i \in 1..Len(s)}
 InTest(s)  == s.mod \in {"cfgtest", "cfgtestOuter"} \/ s.fn \in {"test", "testAttrs"}
-InAsync(s) == s.fn = "async"
+InAsync(s) == s.fn = "async" \/ "asyncfn" \in ToSet(s.inner)
 InWrapper(s) == ToSet(s.inner) \cap Wraps # {}
 \* a loop encloses the call with no closure/wrapper boundary in between
 InLoop(s) == \E i \in 1..Len(s.inner) : s.inner[i] \in Loops /\ \A j \in (i + 1)..Len(s.inner) : s.inner[j] \in Loops
